@@ -480,7 +480,8 @@ def build(workdir, driver_src, flavour="asan", name="drv", extra=None, timeout=9
             f.write(PRELUDE)
     out = os.path.join(workdir, name + "-" + flavour)
     cmd = FLAVOURS[flavour] + ["-include", pre, "-I", common.REPO, "-I", workdir, src, "-o", out] + (extra or [])
-    r = subprocess.run(cmd, capture_output=True, text=True, timeout=timeout)
+    # compiler temporaries go into the scratch directory too (a killed compile would otherwise leave them in /tmp)
+    r = subprocess.run(cmd, capture_output=True, text=True, timeout=timeout, env=dict(os.environ, TMPDIR=workdir))
     if r.returncode != 0:
         return None, r.stderr
     return out, r.stderr
